@@ -6,9 +6,14 @@ from .absgroup import AbsGroup, AbsElem, injectivity_axioms
 
 
 class Entropy:
-    """an entropy function returning fresh symbolic bytes; counts and records every request"""
+    """an entropy function returning fresh symbolic bytes; counts and records every request.
+    Like a buffered pool object it is a callable that happens to be falsy (len() == 0): code that tests the truth
+    value of the supplied entropy source instead of calling it is thereby exposed."""
     def __init__(self, name, max_calls=8):
         self.name, self.calls, self.max_calls = name, [], max_calls
+
+    def __len__(self):
+        return 0
 
     def __call__(self, n):
         if isinstance(n, SymInt):
